@@ -70,7 +70,7 @@ impl RelativeTo {
                 };
                 let hours_in_ns = i64::from(offset.hour) * 3_600_000_000_000_i64;
                 let minutes_in_ns = i64::from(offset.minute) * 60_000_000_000_i64;
-                let seconds_in_ns = i64::from(offset.minute) * 1_000_000_000_i64;
+                let seconds_in_ns = i64::from(offset.second) * 1_000_000_000_i64;
                 let ns = offset
                     .fraction
                     .and_then(|x| x.to_nanoseconds())
